@@ -46,8 +46,10 @@ let () =
                              (match getValue u (uh q) with Some v -> hx v | None -> "throw")) qs)
       | ["FN"; s] ->
         let f = fn_norm (uh s) in
-        String.concat " " (List.map hx [f; fn_path f; fn_base f; fn_name f; fn_ext f; fn_dropExt f])
-      | ["FE"; s; e] -> let f = fn_norm (uh s) in hx (fn_setExt f (uh e)) ^ " " ^ hx (fn_addExt f (uh e))
+        String.concat " " (List.map hx [f; fn_path f; fn_base f; fn_name f; fn_ext f; fn_dropExt f]) ^ " " ^
+        (if List.mem (n_of_int 46) (fn_base f) then hx (fn_addExt (fn_dropExt f) (n_of_int 46 :: fn_ext f)) else "~")
+      | ["FE"; s; e] -> let f = fn_norm (uh s) in
+        hx (fn_setExt f (uh e)) ^ " " ^ hx (fn_addExt f (uh e)) ^ " " ^ hx (fn_addExt (fn_dropExt f) (uh e))
       | ["FP"; a; b] ->
         let fa = fn_norm (uh a) and fb = fn_norm (uh b) in
         String.concat " " (List.map hx [fn_plus fa fb; fn_plus_str fa (uh b)])
